@@ -58,6 +58,14 @@ func H_C12(v *zzverif.T) {
 	if enc == "raw" {
 		raw = zzverif.Syms[byte](v, "raw", n)
 		tp.RawData = append([]byte(nil), raw...)
+		if v.Has("offset") && v.CInt("offset") > 0 {
+			// the payload is a window of a larger buffer that starts at an odd offset (protobuf hands out sub-slices of
+			// the message it decoded: the bytes of a tensor are not aligned to its element size)
+			k := v.CInt("offset")
+			buf := make([]byte, k+n+3)
+			copy(buf[k:], raw)
+			tp.RawData = buf[k : k+n]
+		}
 		elems = n / zzWidth[dtype]
 	} else {
 		switch dtype {
